@@ -149,6 +149,22 @@ PROPS = {
                             "assumed for the abstract method, proved for AbsoluteCategoricalDissimilarity.d",
                             "model: python list slicing / enumerate / filter / generator-expression sum"],
     ),
+    "C05": dict(
+        functions=[CT + q for q in ("GammaResults.n_samples", "GammaResults.observed_disorder", "GammaResults.expected_disorder",
+                                    "GammaResults.gamma", "_compute_best_alignment_job", "_compute_soft_alignment_job", "_compute_gamma_k_job",
+                                    "Continuum.get_best_alignment", "Continuum.get_best_soft_alignment")]
+                  + [AL + "Alignment.disorder"] + CONT_OBSERVERS + ALIGN_CTORS + [AL + "SoftAlignment.__init__"],
+        oracles=[CT + "Continuum.compute_gamma"],
+        bounded=[dict(oracle=CT + "Continuum.compute_gamma",
+                      what="Continuum.compute_gamma (thread pool, sample batches, precision loop) is not under contract yet: seeded computations on "
+                           "random grid continua, n_samples in {1,3,5}, precision none / numeric / named, three samplers, ground-truth subsets, three "
+                           "modes: number of chance alignments == max(n_samples, ceil((1.96 CV/p)^2)), every chance alignment is a valid alignment "
+                           "of its own fresh valid sample over the ground-truth annotators, observed == brute-force optimum of the requested kind, "
+                           "expected == mean, gamma formula, gamma == 1 on identical annotators")],
+        design_ref="DESIGN.md section 4 C05, appendix A.9",
+        not_decided=["G2/G3 (sample counts, one fresh sample per job) are bounded only", "statistical adequacy of the estimate"],
+        trusted=S_COMMON + T_SOLVER + ["model: np.mean(list) = ghost prefix sum / length"],
+    ),
     "C06": dict(
         functions=[],
         effects="C06", effects_oracle=CT + "Continuum.compute_gamma#schedules",
